@@ -29,6 +29,12 @@ the OTHER dx of the same dimension (2-D: with a body of the same marker count, 1
 (sibling objects in one process: caches keyed without dx); the interaction constructor is called in three ways (all
 arguments explicit / documented defaults left out / the optional shift and kernel width given explicitly).
 
+Self-test of the added dimension: the interpolation-closure cache keyed without dx (see C06) -> VIOLATION marker-force!=model,
+velocity-mismatch!=model, eul-forcing!=model in the histories that run on the other dx of the shard's dimension.
+Counters confirm (REQUIRE): reset-mode calls (2nd or later of a body) on a field with content OUTSIDE the body's stencil footprint;
+3-D evaluations with non-zero integral and stiffness (s_max**(d-1) vs s_max*(d-1) differ only for d = 3).  Not added: a body
+with N == dim markers (a new (dx, N) closure set per dimension and precision).
+
 Soundness notes (measured on the unchanged tree, seeds 0..5 quick + 0,1 thorough, both precisions): every
 err/tol ratio stays <= 0.07 (headroom >= 14x).  Three things had to be modelled to get there, none of them a
 defect: (1) PyElastica stores element lengths as |dx| + 1e-14, so the rod grids report s_max 3e-13 (relative)
